@@ -119,13 +119,17 @@ pub fn history(cfg: &Cfg, rep: &mut Report, fl: Flavour, h: u64, steps: usize) {
         if rng.chance(1, 7) {
             let cur = w.ledger();
             let mut targets: Vec<u32> = vec![cur + 1, cur + 2, cur + 17];
+            // rarely, a jump beyond every lifetime extension the library asks for (balances must not lapse)
+            if rng.chance(1, 10) {
+                targets = vec![cur + 600_000];
+            }
             for (_, (_, l)) in m.allow.iter() {
                 if *l >= cur {
                     targets.extend([*l, l.saturating_add(1)]);
                 }
             }
             let t = *rng.pick(&targets);
-            if t > cur && t < cur + 100_000 {
+            if t > cur && t <= cur + 600_000 {
                 w.set_ledger(t);
                 rep.op(format!("ledger -> {t}"));
                 let now = tok.observe();
